@@ -18,9 +18,34 @@ from _util import *
 logging.disable(logging.CRITICAL)   # the library warns on every unknown key under the default policy
 
 
-def build(spec, registry, root=True, bases=()):
+def py_spelling(sp):
+    """a Meta value as the case spells it: {'enum': 'RAISE'} | {'str': s} | {'none': 1} | {'bool': b} | {'int': n}"""
+    if 'enum' in sp:
+        from dataclass_wizard.v1.enums import KeyAction
+        return KeyAction[sp['enum']]
+    if 'str' in sp:
+        return sp['str']
+    if 'bool' in sp:
+        return bool(sp['bool'])
+    if 'int' in sp:
+        return int(sp['int'])
+    return None
+
+
+def op_settings(op):
+    kw = dict(op.get('extra') or {})
+    if 'action' in op:
+        kw['v1_on_unknown_key'] = py_spelling(op['action'])
+    if 'raise' in op:
+        kw['raise_on_unknown_json_key'] = py_spelling(op['raise'])
+    return kw
+
+
+def declared_fields(spec, registry):
+    """(name, type, dataclasses.Field) triples in declaration order: spec['order'] when given, else required fields,
+    the CatchAll field without default, defaulted fields, the CatchAll field with default"""
     from dataclass_wizard import CatchAll
-    req, opt = [], []
+    req, opt, by_name = [], [], {}
     for f in spec['fields']:
         if f['kind'] == 'int':
             tp = int
@@ -35,16 +60,64 @@ def build(spec, registry, root=True, bases=()):
                 fld = AliasPath(*['.'.join(p) for p in f['path']], **kw)
             else:
                 fld = Alias(*f['aliases'], **kw)
+        elif f.get('skip_if') is not None:
+            from dataclass_wizard import skip_if_field
+            fld = skip_if_field(make_cond(f['skip_if']), **kw)
         else:
             fld = dataclasses.field(**kw)
         (opt if 'default' in kw else req).append((f['name'], tp, fld))
+        by_name[f['name']] = (f['name'], tp, fld)
     c = spec.get('catch')
     if c:
-        if c['default']:
-            opt.append((c['name'], CatchAll, dataclasses.field(default=None)))
+        kw = {}
+        if c.get('factory'):
+            kw['default_factory'] = dict
+        elif c['default']:
+            kw['default'] = None
+        if c.get('skip_if') is not None:
+            from dataclass_wizard import skip_if_field
+            fld = skip_if_field(make_cond(c['skip_if']), **kw)
         else:
-            req.append((c['name'], CatchAll, dataclasses.field()))
-    cls = dataclasses.make_dataclass(spec['name'], req + opt, bases=tuple(bases) if root else ())
+            fld = dataclasses.field(**kw)
+        (opt if kw else req).append((c['name'], CatchAll, fld))
+        by_name[c['name']] = (c['name'], CatchAll, fld)
+    if spec.get('order'):
+        return [by_name[n] for n in spec['order']]
+    return req + opt
+
+
+def make_cond(c):
+    """{'op': 'EQ', 'val': <JSON value>} -> Condition"""
+    import dataclass_wizard as dw
+    op = c['op']
+    if op in ('IS_TRUTHY', 'IS_FALSY'):
+        return getattr(dw, op)()
+    return getattr(dw, op)(copy.deepcopy(c['val']))
+
+
+def build(spec, registry, root=True, bases=()):
+    fields = declared_fields(spec, registry)
+    binds = spec.get('binds') if root else None
+    if binds:
+        # the configuration entry points, in order: [JSONPyWizard's implicit DumpMeta], inner Meta, LoadMeta / DumpMeta binds
+        from dataclass_wizard import JSONWizard, JSONPyWizard, LoadMeta, DumpMeta
+        base = {'plain': None, 'wizard': JSONWizard, 'pywizard': JSONPyWizard}[binds['base']]
+        ops = list(binds['ops'])        # in execution order: [implicit (JSONPyWizard)], [inner], load / dump binds
+        inner = next((op for op in ops if op['via'] == 'inner'), None)
+        if base is not None and inner is not None:
+            ops.remove(inner)
+            ns = dict(op_settings(inner))
+            ns['__qualname__'] = spec['name'] + '._'
+            type('_', (JSONWizard.Meta,), ns)            # registers the initializer for the outer class name
+        cls = dataclasses.make_dataclass(spec['name'], fields, bases=(base,) if base is not None else ())
+        cls.__qualname__ = spec['name']
+        registry[spec['name']] = cls
+        for op in ops:
+            if op['via'] == 'implicit':
+                continue                                 # JSONPyWizard's own DumpMeta(key_transform='NONE'), already bound
+            (LoadMeta if op['via'] == 'load' else DumpMeta)(**op_settings(op)).bind_to(cls)
+        return cls
+    cls = dataclasses.make_dataclass(spec['name'], fields, bases=tuple(bases) if root else ())
     cls.__qualname__ = spec['name']
     registry[spec['name']] = cls
     if root:
@@ -228,12 +301,150 @@ def run_witness(w):
         r_new = outcome(fromdict, AOuter, {'b': 1, 'inner': {'a': 2, 'bogus': 3}})
         return {'seen_key_accepted': 'ok' in r_seen,
                 'unseen_key_rejected': r_new.get('err') == 'UnknownKeysError' and str(r_new.get('class_name')).endswith('AInner')}
+    if w['kind'] == 'F91':
+        from dataclass_wizard import fromdict, LoadMeta, CatchAll
+
+        @dataclasses.dataclass
+        class A91:
+            a: int
+            b: int = 3
+            rest: CatchAll = dataclasses.field(default_factory=dict)
+        LoadMeta(v1=True).bind_to(A91)
+        r1 = load_outcome(fromdict, A91, {'a': 1, 'zz': 5})
+        r2 = load_outcome(fromdict, A91, {'a': 1, 'b': 2})
+
+        @dataclasses.dataclass
+        class B91:
+            a: int
+            rest: CatchAll = dataclasses.field(default_factory=dict)
+            b: int = 3
+        LoadMeta(v1=True).bind_to(B91)
+        r3 = load_outcome(fromdict, B91, {'a': 1, 'b': 2, 'zz': 5})
+        return {'mapped_field_changed': 'inst' in r1 and (r1['inst'].b != 3 or r1['inst'].rest != {'zz': 5}),
+                'known_doc_rejected': r2.get('err'),
+                'factory_first_ok': 'inst' in r3 and r3['inst'].b == 2 and r3['inst'].rest == {'zz': 5}}
     return {'error': 'unknown witness kind'}
+
+
+def load_outcome(fn, *a):
+    from dataclass_wizard.errors import UnknownKeysError
+    try:
+        return {'inst': fn(*a)}
+    except UnknownKeysError as e:
+        r = err_info(e)
+        uk = e.unknown_keys
+        r['unknown_keys'] = [uk] if isinstance(uk, str) else sorted(uk)
+        return r
+    except BaseException as e:
+        return err_info(e)
+
+
+def run_gen_world(w):
+    """region B: ONE class (w['inner']) whose loader is generated several times in this interpreter: alone (root -1) and
+    nested under each root of w['roots'] at position plain / list / dict / opt; w['ops'] = [{'root': i, 'docs': [inner docs]}]"""
+    import typing
+    from dataclass_wizard import fromdict, asdict, LoadMeta
+    registry = {}
+    out = []
+    try:
+        inner = w['inner']
+        v1 = inner['engine'] == 'v1'
+        I = build(inner, registry, root=False)
+        if v1:
+            LoadMeta(v1=True).bind_to(I)
+        roots = []
+        for rt in w['roots']:
+            tp = {'plain': I, 'list': typing.List[I], 'dict': typing.Dict[str, I], 'opt': typing.Optional[I]}[rt['pos']]
+            R = dataclasses.make_dataclass(rt['name'], [('b_val', int), ('inner', tp)])
+            R.__qualname__ = rt['name']
+            mk = {}
+            if v1:
+                mk['v1'] = True
+                if rt.get('raise'):
+                    mk['v1_on_unknown_key'] = 'RAISE'
+            elif rt.get('raise'):
+                mk['raise_on_unknown_json_key'] = True
+            if mk:
+                LoadMeta(**mk).bind_to(R)
+            roots.append(R)
+    except BaseException as e:
+        r = err_info(e); r['phase'] = 'setup'
+        return [r for _ in w['ops']]
+    for op in w['ops']:
+        docs = copy.deepcopy(op['docs'])
+        if op['root'] < 0:
+            r = load_outcome(fromdict, I, docs[0])
+            insts = [r['inst']] if 'inst' in r else None
+        else:
+            rt = w['roots'][op['root']]
+            wrapped = {'plain': lambda: docs[0], 'opt': lambda: docs[0], 'list': lambda: list(docs),
+                       'dict': lambda: {'k%d' % i: d for i, d in enumerate(docs)}}[rt['pos']]()
+            r = load_outcome(fromdict, roots[op['root']], {'b_val': 1, 'inner': wrapped})
+            insts = None
+            if 'inst' in r:
+                x = r['inst'].inner
+                insts = [x] if rt['pos'] in ('plain', 'opt') else (list(x) if rt['pos'] == 'list' else list(x.values()))
+        if insts is None:
+            r['input_unchanged'] = (docs == op['docs'])
+            out.append(r)
+            continue
+        res = {'ok': [view(x, inner) for x in insts], 'input_unchanged': (docs == op['docs']), 'dumps': []}
+        for x in insts:
+            try:
+                res['dumps'].append(asdict(x))
+            except BaseException as e:
+                res['dumps'].append({'__dump_err__': type(e).__name__})
+        out.append(res)
+    return out
+
+
+def run_dump_case(c):
+    """region C: one class with a CatchAll field and dump-side settings; load c['doc'], then asdict with each of c['calls']"""
+    from dataclass_wizard import fromdict, asdict, LoadMeta, DumpMeta
+    registry = {}
+    try:
+        cls = build(c['cls'], registry, root=False)
+        if c['cls']['engine'] == 'v1':
+            LoadMeta(v1=True).bind_to(cls)
+        mk = {}
+        m = c['meta']
+        for k in ('skip_if', 'skip_defaults_if'):
+            if m.get(k) is not None:
+                mk[k] = make_cond(m[k])
+        if m.get('skip_defaults') is not None:
+            mk['skip_defaults'] = m['skip_defaults']
+        if m.get('key_transform') is not None:
+            mk['key_transform'] = m['key_transform']
+        if mk:
+            DumpMeta(**mk).bind_to(cls)
+        doc = copy.deepcopy(c['doc'])
+        r = load_outcome(fromdict, cls, doc)
+    except BaseException as e:
+        r = err_info(e); r['phase'] = 'setup'
+        return {'load': r, 'calls': []}
+    if 'inst' not in r:
+        return {'load': r, 'calls': []}
+    inst = r['inst']
+    out = {'load': {'ok': view(inst, c['cls'])}, 'calls': []}
+    for call in c['calls']:
+        kw = {}
+        if call.get('exclude') is not None:
+            kw['exclude'] = list(call['exclude'])
+        if call.get('skip_defaults') is not None:
+            kw['skip_defaults'] = call['skip_defaults']
+        try:
+            d = asdict(inst, **kw)
+            out['calls'].append({'items': [[k, d[k]] for k in d]})
+        except BaseException as e:
+            out['calls'].append(err_info(e))
+    return out
 
 
 def handler(p):
     return {'cases': [run_case(c) for c in p.get('cases', [])],
-            'witness': [run_witness(w) for w in p.get('witness', [])]}
+            'witness': [run_witness(w) for w in p.get('witness', [])],
+            'gen': [run_gen_world(w) for w in p.get('gen', [])],
+            'dump': [run_dump_case(c) for c in p.get('dump', [])]}
 
 
 if __name__ == '__main__':
